@@ -276,7 +276,7 @@ fn env_diverged(ne: &[(String, String, u64, u64)], na: &[(String, String, u64, u
 /// C05 promptness / C02 delivery oracle, evaluated outside the model's schedule: every interruptible
 /// operation whose cancellation was requested must complete although the awaited event never
 /// happens. Polls the real driver for up to `ms`.
-fn settle(driver: &mut Proactor, ctx: &mut Ctx, cursor: &mut usize, ms: u64) -> Vec<usize> {
+fn settle(driver: &mut Proactor, ctx: &mut Ctx, cursor: &mut usize, ms: u64, include_blocking: bool) -> Vec<usize> {
     let t0 = Instant::now();
     loop {
         let raw = rec::since(*cursor);
@@ -311,7 +311,9 @@ fn settle(driver: &mut Proactor, ctx: &mut Ctx, cursor: &mut usize, ms: u64) -> 
             if o.cancel_requested && o.kind != "blocking" {
                 waiting.push(i);
             } else if o.kind == "blocking" && o.caused {
-                waiting.push(i);
+                if include_blocking {
+                    waiting.push(i);
+                }
             } else if o.kind == "single" && o.dir_w && held && writable.contains(&o.pipe) {
                 waiting.push(i);
             } else if o.kind == "single" && !o.dir_w && held && readable.contains(&o.pipe) && !seen_pipe.contains(&o.pipe) {
@@ -523,8 +525,11 @@ fn run_case(case: &Value, rep: &mut Report, trace_out: &mut Vec<String>, settle_
                 ps.feeds = ps.feeds.wrapping_add(1);
                 let data: Vec<u8> = (0..3u8).map(|i| ((pid as u8 & 7) << 5) | ((ps.feeds & 7) << 2) | i).collect();
                 let n = unsafe { libc::write(ps.w.as_raw_fd(), data.as_ptr() as _, data.len()) };
-                assert_eq!(n, data.len() as isize, "harness: pipe write failed");
-                ps.pending.extend(data);
+                if n == data.len() as isize {
+                    ps.pending.extend(data);
+                } else if !settle_mode {
+                    panic!("harness: pipe write failed");
+                }
             }
             "drain" => {
                 // the peer reads everything: the driver-side descriptor becomes writable
@@ -541,8 +546,13 @@ fn run_case(case: &Value, rep: &mut Report, trace_out: &mut Vec<String>, settle_
             }
             "kmore" => {
                 let p = ctx.ops[oi].sock_path.clone().expect("listener");
-                let c = UnixStream::connect(&p).expect("connect");
-                ctx.ops[oi].clients.push(c);
+                // in the oracle pass (settle) the extra polls may already have completed the operation: the
+                // listener is gone then and the schedule step is moot
+                match UnixStream::connect(&p) {
+                    Ok(c) => ctx.ops[oi].clients.push(c),
+                    Err(e) if settle_mode => drop(e),
+                    Err(e) => panic!("harness: connect: {e:?}"),
+                }
             }
             "poolrun" => {
                 if let Some(g) = ctx.ops[oi].gate.take() {
@@ -569,6 +579,28 @@ fn run_case(case: &Value, rep: &mut Report, trace_out: &mut Vec<String>, settle_
                             break;
                         }
                         std::thread::sleep(Duration::from_millis(1));
+                    }
+                    if settle_mode {
+                        // oracle pass: after every poll everything that can make progress must do so promptly
+                        // (ring/poller operations only; thread-pool jobs are judged at the end)
+                        let mut cur = cursor;
+                        let raw0 = rec::since(cur);
+                        cur += raw0.len();
+                        let evs0 = ctx.translate(&raw0, true);
+                        ctx.trace.extend(evs0);
+                        let late = settle(d, &mut ctx, &mut cur, 250, false);
+                        cursor = cur;
+                        mark = cur;
+                        for oi2 in late {
+                            let o = &ctx.ops[oi2];
+                            rep.problem(
+                                "hang",
+                                json!({"site": site, "what": if !o.cancel_requested { "finished-op-never-delivered" } else { "cancelled-op-never-completes" }, "cancel_dropped_sq_full": o.cancel_dropped, "kind": o.kind}),
+                                format!("operation {} ({}): cancelled={} but no completion was delivered within 250 ms of polling although what it waits for is ready", o.name, o.kind, o.cancel_requested),
+                                case,
+                                si,
+                            );
+                        }
                     }
                 }
             }
@@ -744,7 +776,7 @@ fn run_case(case: &Value, rep: &mut Report, trace_out: &mut Vec<String>, settle_
                 if let Some(d) = driver.as_mut().filter(|_| settle_mode) {
                     let mut cur = cursor;
                     // events of the settle phase are recorded but not compared with the model
-                    let late = settle(d, &mut ctx, &mut cur, 400);
+                    let late = settle(d, &mut ctx, &mut cur, 400, true);
                     cursor = cur;
                     mark = cur;
                     for oi2 in late {
@@ -837,7 +869,7 @@ fn run_case(case: &Value, rep: &mut Report, trace_out: &mut Vec<String>, settle_
     if settle_mode {
         if let Some(d) = driver.as_mut() {
             let mut cur = cursor;
-            let late = settle(d, &mut ctx, &mut cur, 400);
+            let late = settle(d, &mut ctx, &mut cur, 400, true);
             for oi2 in late {
                 let o = &ctx.ops[oi2];
                 rep.problem(
